@@ -105,6 +105,12 @@ func (st *vState) observe() string {
 		if strings.Join(got, ",") != strings.Join(want, ",") {
 			return fmt.Sprintf("s%d.Sorted() = %v, model %v", i, got, want)
 		}
+		// the slices handed out are the caller's: overwriting them must not change
+		// what the set answers afterwards (no aliasing of internal state)
+		vScribble(s)
+		if again := vSorted(s); strings.Join(again, ",") != strings.Join(want, ",") {
+			return fmt.Sprintf("s%d.Sorted() = %v after the caller overwrote the slice returned by the previous Sorted(), model %v", i, again, want)
+		}
 		el := vElements(s)
 		sort.Strings(el)
 		w2 := append([]string{}, want...)
